@@ -45,7 +45,10 @@ Proof. exact locked_frozen_run. Qed.
 Print Assumptions C05_locked_frozen_history.
 
 (* the full statement (all calls) is false of the unchanged code: exclude(inplace=True) has no guard (D8) *)
-Definition C05_locked_frozen_full_statement : Prop := locked_frozen_full_statement.   (* Proofs/C05_WitnessP.v: all calls but the documented conversions *)
+Definition C05_locked_frozen_full_statement : Prop := forall fuel s o s' out r,
+  Inv s -> in_scope o -> step fuel s o = Some (s', out) -> (forall n k, o <> OMakeMemmap n k) -> (forall n, o <> OMemmap n) ->
+  flag_true (hp s) r = true -> live s r = true -> no_mm (hp s) r -> tree_unchanged (hp s) (hp s') r.
+(* witness (replayed against the implementation by the harness): [ONewTd; OSet 0 "a" VLeaf; OLock 0] then OExclude 0 ["a"] *)
 Theorem C05_locked_frozen_refuted_D8 : ~ C05_locked_frozen_full_statement.
 Proof. exact locked_frozen_refuted_D8. Qed.
 Print Assumptions C05_locked_frozen_refuted_D8.
@@ -63,7 +66,10 @@ Proof. exact member_cannot_unlock. Qed.
 Print Assumptions C05_member_cannot_unlock.
 
 (* the full statement (any way of having become locked) is false of the unchanged code: memmap_ builds no lock graph (D7) *)
-Definition C05_member_cannot_unlock_full_statement : Prop := member_cannot_unlock_full_statement.   (* any way of having become locked *)
+Definition C05_member_cannot_unlock_full_statement : Prop := forall fuel s q n s' out,
+  Inv s -> child (hp s) q n -> flag_true (hp s) q = true -> live s q = true ->
+  step fuel s (OUnlock n) = Some (s', out) -> out = Raised ELock.
+(* witness: [ONewTd; OSet 0 "n" VNewTd; OMemmap 0] then OUnlock 1 succeeds *)
 Theorem C05_member_cannot_unlock_refuted_D7 : ~ C05_member_cannot_unlock_full_statement.
 Proof. exact member_cannot_unlock_refuted_D7. Qed.
 Print Assumptions C05_member_cannot_unlock_refuted_D7.
@@ -118,16 +124,16 @@ Print Assumptions C05_pickle_roundtrip_relocks.
 (* D55: lock_() on a lazy stack whose members were locked one by one is a no-op (derived is_locked already True): a member can
         then be unlocked on its own, after a lock_() call on the stack that "succeeded" *)
 Theorem C05_lazy_lock_noop_refuted_D55 :
-  exists s s', run auto_fuel init d55_hist = Some (s, [Done; Done; Done; Done; Done; Done]) /\
-               is_locked 9 (hp s) 2 = Some true /\ child (hp s) 2 0 /\
-               step 9 s (OUnlock 0) = Some (s', Done) /\ is_locked 9 (hp s') 2 = Some false.
+  option_map snd (run auto_fuel init d55_hist) = Some [Done; Done; Done; Done; Done; Done] /\
+  is_locked 9 (hp d55_state) 2 = Some true /\ child (hp d55_state) 2 0 /\
+  option_map snd (step 9 d55_state (OUnlock 0)) = Some Done /\ is_locked 9 (hp d55_after) 2 = Some false.
 Proof. exact lazy_lock_noop_refuted_D55. Qed.
 Print Assumptions C05_lazy_lock_noop_refuted_D55.
 
 (* D56: a lazy stack without members inside a locked tree can be unlocked alone and then appended to (out of [in_scope]) *)
 Theorem C05_hollow_lazy_refuted_D56 :
-  exists s, run auto_fuel init d56_hist = Some (s, [Done; Done; Done; Done; Done; Done; Done]) /\
-            flag_true (hp s) 0 = true /\ child (hp s) 0 1 /\ children (hp s) 1 = [2].
+  option_map snd (run auto_fuel init d56_hist) = Some [Done; Done; Done; Done; Done; Done; Done] /\
+  flag_true (hp d56_state) 0 = true /\ child (hp d56_state) 0 1 /\ children (hp d56_state) 1 = [2].
 Proof. exact hollow_lazy_refuted_D56. Qed.
 Print Assumptions C05_hollow_lazy_refuted_D56.
 
@@ -176,17 +182,21 @@ Example C05_ex_locked_tree : flag_true (hp ex_state) 0 = true /\ live ex_state 0
   /\ child (hp ex_state) 2 3 /\ child (hp ex_state) 0 8 /\ child (hp ex_state) 8 5 /\ child (hp ex_state) 5 7.
 Proof. vm_compute. repeat split; auto. Qed.
 
+Definition outcome_of (r : option (st * outcome)) : option outcome := option_map snd r.
+
 Example C05_ex_member_unlock_raises :
-  (exists s', step 12 ex_state (OUnlock 7) = Some (s', Raised ELock)) /\      (* nested inside a member of a lazy stack *)
-  (exists s', step 12 ex_state (OUnlock 8) = Some (s', Raised ELock)) /\      (* the lazy stack itself *)
-  (exists s', step 12 ex_state (OUnlock 3) = Some (s', Raised ELock)) /\      (* below the shared node *)
-  (exists s', step 12 ex_state (OUnlock 0) = Some (s', Raised ELock)) /\      (* a root sharing a node with another locked root *)
-  (exists s', step 12 ex_state (OSet 3 "new" VLeaf) = Some (s', Raised ELock)) /\
-  (exists s', step 12 ex_state (OSetInplace 3 "z") = Some (s', Done)).
-Proof. vm_compute. repeat split; eexists; reflexivity. Qed.
+  outcome_of (step 12 ex_state (OUnlock 7)) = Some (Raised ELock) /\      (* nested inside a member of a lazy stack *)
+  outcome_of (step 12 ex_state (OUnlock 8)) = Some (Raised ELock) /\      (* the lazy stack itself *)
+  outcome_of (step 12 ex_state (OUnlock 3)) = Some (Raised ELock) /\      (* below the shared node *)
+  outcome_of (step 12 ex_state (OUnlock 0)) = Some (Raised ELock) /\      (* a root sharing a node with another locked root *)
+  outcome_of (step 12 ex_state (OSet 3 "new" VLeaf)) = Some (Raised ELock) /\
+  outcome_of (step 12 ex_state (OSetInplace 3 "z")) = Some Done.
+Proof. vm_compute. repeat split. Qed.
 
 (* gc_parent / unlock_root_frees: once root 1 is collected, root 0 can be unlocked and its whole tree accepts writes *)
+Definition ex_s1 : st := match step 12 ex_state (OGc [1]) with Some (s, _) => s | None => init end.
+Definition ex_s2 : st := match step 12 ex_s1 (OUnlock 0) with Some (s, _) => s | None => init end.
 Example C05_ex_gc_then_unlock :
-  exists s1 s2 s3, step 12 ex_state (OGc [1]) = Some (s1, Done) /\ step 12 s1 (OUnlock 0) = Some (s2, Done) /\
-                   step 12 s2 (OSet 3 "new" VLeaf) = Some (s3, Done) /\ flag_true (hp s2) 7 = false.
-Proof. vm_compute. do 3 eexists. repeat split. Qed.
+  outcome_of (step 12 ex_state (OGc [1])) = Some Done /\ outcome_of (step 12 ex_s1 (OUnlock 0)) = Some Done /\
+  outcome_of (step 12 ex_s2 (OSet 3 "new" VLeaf)) = Some Done /\ flag_true (hp ex_s2) 7 = false /\ flag_true (hp ex_state) 7 = true.
+Proof. vm_compute. repeat split. Qed.
